@@ -467,6 +467,26 @@ class FuncScope(Scope, Location, Resolvable):
         return 'FuncScope({}, {})'.format(self.name, self.declared_at)
 
 
+class CompScope(Scope):
+    """Scope of a comprehension or a generator expression: its targets are
+    local to it, everything else is seen through the scope it is written in."""
+
+    def __init__(self, parent, top, entry):
+        # type: (Scope, SourceScope, Flow) -> None
+        Scope.__init__(self, parent, top)
+        # a comprehension runs where it is written, so it continues the
+        # region it appears in; in a class body it is a function of its own
+        # and, like a method, does not see the names of the class
+        self.entry = entry
+        parents = [] if isinstance(parent, ClassScope) else [entry]
+        self.flow = top.add_flow(Flow('comp', self, parents))
+
+    @property
+    def names(self):
+        # type: () -> t.Mapping[str, Name | MultiName]
+        return self.flow.names
+
+
 class ClassScope(Scope, Location, Resolvable):
     def __init__(self, parent, node, top):
         # type: (Scope, ClassDef, SourceScope) -> None
